@@ -458,7 +458,7 @@ pub fn global_decode_uri(
         Some(v) => interp.to_js_string(v),
         None => interp.intern(""),
     };
-    let result = percent_decode(s.as_str(), true);
+    let result = percent_decode(s.as_str(), true)?;
     Ok(Guarded::unguarded(JsValue::String(JsString::from(result))))
 }
 
@@ -495,40 +495,62 @@ pub fn global_decode_uri_component(
         Some(v) => interp.to_js_string(v),
         None => interp.intern(""),
     };
-    let result = percent_decode(s.as_str(), false);
+    let result = percent_decode(s.as_str(), false)?;
     Ok(Guarded::unguarded(JsValue::String(JsString::from(result))))
 }
 
-fn percent_decode(s: &str, preserve_reserved: bool) -> String {
+/// Decode %XX escapes: consecutive escapes form the UTF-8 encoding of one character. A
+/// truncated or non-hexadecimal escape, or bytes that are not valid UTF-8, is a URIError.
+fn percent_decode(s: &str, preserve_reserved: bool) -> Result<String, JsError> {
+    let malformed = || JsError::RuntimeError {
+        kind: "URIError".to_string(),
+        message: "URI malformed".to_string(),
+        stack: Vec::new(),
+    };
+    let bytes = s.as_bytes();
+    let escape_at = |at: usize| -> Result<u8, JsError> {
+        let hex = bytes
+            .get(at + 1..at + 3)
+            .and_then(|h| core::str::from_utf8(h).ok())
+            .ok_or_else(malformed)?;
+        u8::from_str_radix(hex, 16).map_err(|_| malformed())
+    };
     let mut result = String::new();
-    let mut chars = s.chars().peekable();
-    while let Some(c) = chars.next() {
-        if c == '%' {
-            // Try to read two hex digits
-            let hex: String = chars.by_ref().take(2).collect();
-            if hex.len() == 2 {
-                if let Ok(byte) = u8::from_str_radix(&hex, 16) {
-                    let decoded = byte as char;
-                    // For decodeURI, don't decode reserved characters
-                    if preserve_reserved && URI_RESERVED.contains(decoded) {
-                        result.push('%');
-                        result.push_str(&hex);
-                    } else {
-                        result.push(decoded);
-                    }
-                } else {
-                    result.push('%');
-                    result.push_str(&hex);
-                }
-            } else {
-                result.push('%');
-                result.push_str(&hex);
-            }
-        } else {
-            result.push(c);
+    let mut pos = 0;
+    while let Some(&b) = bytes.get(pos) {
+        if b != b'%' {
+            // Copy the whole (possibly multi-byte) character
+            let ch = s.get(pos..).and_then(|rest| rest.chars().next());
+            let Some(ch) = ch else { break };
+            result.push(ch);
+            pos += ch.len_utf8();
+            continue;
         }
+        let first = escape_at(pos)?;
+        let length = match first {
+            0x00..=0x7F => 1,
+            0xC0..=0xDF => 2,
+            0xE0..=0xEF => 3,
+            0xF0..=0xF7 => 4,
+            _ => return Err(malformed()),
+        };
+        let mut encoded = vec![first];
+        for k in 1..length {
+            if bytes.get(pos + 3 * k) != Some(&b'%') {
+                return Err(malformed());
+            }
+            encoded.push(escape_at(pos + 3 * k)?);
+        }
+        let decoded = core::str::from_utf8(&encoded).map_err(|_| malformed())?;
+        // For decodeURI, reserved characters stay escaped
+        if preserve_reserved && length == 1 && (URI_RESERVED.contains(decoded)) {
+            result.push_str(s.get(pos..pos + 3).unwrap_or(""));
+        } else {
+            result.push_str(decoded);
+        }
+        pos += 3 * length;
     }
-    result
+    Ok(result)
 }
 
 // Base64 encoding alphabet
